@@ -29,9 +29,14 @@ def run(sd):
     try:
         shutil.rmtree(repo, ignore_errors=True)
         subprocess.run(["git", "-C", "/repo", "worktree", "prune"], capture_output=True)
-        shutil.copytree("/repo", repo, ignore=shutil.ignore_patterns(".git"))
+        os.makedirs(repo)
+        ar = subprocess.run(["git", "-C", "/repo", "archive", "HEAD"], capture_output=True, check=True)   # committed state
+        subprocess.run(["tar", "-x", "-C", repo], input=ar.stdout, check=True)
         subprocess.run(["git", "init", "-q"], cwd=repo, check=True)
-        subprocess.run(["git", "apply", os.path.join(sd, "patch.diff")], cwd=repo, check=True)
+        ap = subprocess.run(["git", "apply", os.path.join(sd, "patch.diff")], cwd=repo, capture_output=True, text=True)
+        if ap.returncode != 0:
+            print(os.path.basename(sd), "PATCH DOES NOT APPLY", ap.stderr[-200:], flush=True)
+            return os.path.basename(sd), {"property": "?", "result": "patch-does-not-apply", "summary": ""}
         meta = json.load(open(os.path.join(sd, "meta.json")))
         pid = meta["property"]
         env = dict(os.environ, VERIF_REPO=repo, VERIF_LEAN_DIR=lean, PYTHONPATH=repo, VERIF_OUT_DIR=os.path.join(base, "out%d" % k))
